@@ -372,4 +372,278 @@ example : word2 "Bearer tok x".toList = some "tok".toList := by decide
 #print axioms C15_witness_unprotected
 #print axioms C15_serves
 
+/-! ## Wave 2 — the comparison as a parameter; raw header lines -/
+
+theorem authOKW_eq (h : Option (List Char)) (τ : List Char) : authOKW eqCmp h τ = authOK h τ := by
+  cases h with
+  | none => rfl
+  | some hs =>
+    simp only [authOKW, authOK]
+    cases word2 hs with
+    | none => rfl
+    | some w => simp [eqCmp]
+
+theorem guardedW_eq {σ π : Type} (V : View σ π) (tok : Option (List Char)) (s : σ) (r : Request π) :
+    guardedW eqCmp V tok s r = guarded V tok s r := by
+  cases tok with
+  | none => rfl
+  | some τ => simp only [guardedW, guarded, authOKW_eq]
+
+theorem handleW_eq {σ π : Type} (V : View σ π) (t : Table) (tok : Option (List Char)) (s : σ) (r : Request π) :
+    handleW eqCmp V t tok s r = handle V t tok s r := by
+  simp only [handleW, handle, serveRouteW, serveRoute, guardedW_eq]
+
+theorem obsLookup_good (o : Obs) (h : compareIsEquality o = true) (w τ : List Char) (v : Bool)
+    (hl : obsLookup o w τ = some v) : v = decide (w = τ) := by
+  induction o with
+  | nil => simp [obsLookup] at hl
+  | cons x rest ih =>
+    obtain ⟨p, e, b⟩ := x
+    simp only [compareIsEquality, List.all_cons, Bool.and_eq_true, beq_iff_eq] at h
+    simp only [obsLookup] at hl
+    split at hl
+    · rename_i hpe
+      obtain ⟨rfl, rfl⟩ := hpe
+      cases hl
+      exact h.1
+    · exact ih (by simpa [compareIsEquality] using h.2) hl
+
+/-- if every observation is the verdict of string equality, the comparison of the run IS string equality -/
+theorem cmpOf_good (o : Obs) (h : compareIsEquality o = true) : cmpOf o = eqCmp := by
+  funext w τ
+  simp only [cmpOf, eqCmp]
+  cases hl : obsLookup o w τ with
+  | none => rfl
+  | some v => simp [obsLookup_good o h w τ v hl]
+
+/-- `auth_exact` with the comparison as a parameter: it holds for a comparison that is string equality on
+every possible credentials word … -/
+theorem auth_exactW (cmp : Cmp) (hc : ∀ w τ, ' ' ∉ w → cmp w τ = decide (w = τ)) (h τ : List Char) :
+    authOKW cmp (some h) τ = .accept ↔ word2 h = some τ := by
+  cases hw : word2 h with
+  | none => simp [authOKW, hw]
+  | some w =>
+    have hns : ' ' ∉ w := by
+      obtain ⟨_, _, _, hn, _⟩ := (word2_spec h w).mp hw
+      exact hn
+    by_cases e : w = τ
+    · subst e; simp [authOKW, hw, hc w w hns]
+    · simp [authOKW, hw, hc w τ hns, e]
+
+/-- … and ONLY for such a comparison: `auth_exact` requires exactly string equality (every space-free `w`
+is the credentials word of the header `"Bearer " ++ w`). -/
+theorem auth_exactW_requires (cmp : Cmp)
+    (hex : ∀ h τ, authOKW cmp (some h) τ = .accept ↔ word2 h = some τ) :
+    ∀ w τ, ' ' ∉ w → cmp w τ = decide (w = τ) := by
+  intro w τ hw
+  have h2 : word2 ("Bearer".toList ++ ' ' :: w) = some w :=
+    (word2_spec _ _).mpr ⟨"Bearer".toList, [], by decide, hw, Or.inl rfl⟩
+  have := hex ("Bearer".toList ++ ' ' :: w) τ
+  simp only [authOKW, h2] at this
+  by_cases e : w = τ
+  · have h3 := this.mpr (by rw [e])
+    simp only [e, decide_true]
+    cases hcv : cmp τ τ with
+    | true => rfl
+    | false => rw [e] at h3; simp [hcv] at h3
+  · simp only [e, decide_false]
+    cases hcv : cmp w τ with
+    | false => rfl
+    | true =>
+      have h3 := this.mp (by simp [hcv])
+      exact absurd (Option.some.inj h3) e
+
+theorem auth_exact_iff_equality (cmp : Cmp) :
+    (∀ h τ, authOKW cmp (some h) τ = .accept ↔ word2 h = some τ) ↔
+      (∀ w τ, ' ' ∉ w → cmp w τ = decide (w = τ)) :=
+  ⟨auth_exactW_requires cmp, fun hc h τ => auth_exactW cmp hc h τ⟩
+
+/-- the decorator of the run (comparison = equality patched by the observations) accepts exactly the
+requests presenting the token, when the probed fact holds -/
+theorem auth_exact_obs (o : Obs) (hgood : compareIsEquality o = true) (h τ : List Char) :
+    authOKW (cmpOf o) (some h) τ = .accept ↔ word2 h = some τ := by
+  rw [cmpOf_good o hgood, authOKW_eq]; exact auth_exact h τ
+
+/-- every proper prefix of the token (the empty word included), every extension, every same-length
+variant is refused by the decorator of the run -/
+theorem auth_obs_other_word (o : Obs) (hgood : compareIsEquality o = true) (a w τ : List Char)
+    (ha : ' ' ∉ a) (hw : ' ' ∉ w) (hne : w ≠ τ) : authOKW (cmpOf o) (some (a ++ ' ' :: w)) τ = .reject := by
+  rw [cmpOf_good o hgood, authOKW_eq]; exact auth_other_word a w τ ha hw hne
+
+/-- the full statement with the comparison as a parameter -/
+def C15_fullW (t : Table) (cmp : Cmp) : Prop :=
+  ∀ (σ π : Type) (V : View σ π) (τ : List Char) (s : σ) (r : Request π),
+    ¬ presents r τ →
+    (∀ rt, t.routes[r.route]? = some rt → isPublic rt = false) →
+    (handleW cmp V t (some τ) s r).2 ≥ 400 ∧ (handleW cmp V t (some τ) s r).1 = s
+
+def C15_but_optionsW (t : Table) (cmp : Cmp) : Prop :=
+  ∀ (σ π : Type) (V : View σ π) (τ : List Char) (s : σ) (r : Request π),
+    ¬ presents r τ →
+    (∀ rt, t.routes[r.route]? = some rt → isPublic rt = false) →
+    (handleW cmp V t (some τ) s r).1 = s ∧ (r.method ≠ "OPTIONS" → (handleW cmp V t (some τ) s r).2 ≥ 400)
+
+/-- The property for what was probed in a run: the route table AND the comparison observed on the real
+decorator. -/
+def C15_fullC (c : Cfg) : Prop := C15_fullW c.table (cmpOf c.obs)
+
+theorem C15_fullW_eq (t : Table) : C15_fullW t eqCmp ↔ C15_full t := by
+  simp only [C15_fullW, C15_full, handleW_eq]
+
+/-- with the probed fact, the statement about the run's comparison is the statement `C15_full` (nothing
+was weakened by introducing the parameter) -/
+theorem C15_fullC_iff (c : Cfg) (hcmp : compareIsEquality c.obs = true) : C15_fullC c ↔ C15_full c.table := by
+  unfold C15_fullC; rw [cmpOf_good c.obs hcmp]; exact C15_fullW_eq c.table
+
+theorem C15_fullC_of_good (c : Cfg) (hok : allProtected c.table = true) (hno : noAutoOptions c.table = true)
+    (hcmp : compareIsEquality c.obs = true) : C15_fullC c :=
+  (C15_fullC_iff c hcmp).mpr (C15_full_of_good c.table hok hno)
+
+theorem C15_partialC (c : Cfg) (hok : allProtected c.table = true) (hcmp : compareIsEquality c.obs = true) :
+    C15_but_optionsW c.table (cmpOf c.obs) := by
+  rw [cmpOf_good c.obs hcmp]
+  intro σ π V τ s r hnp hpub
+  simp only [handleW_eq]
+  exact C15_partial c.table hok σ π V τ s r hnp hpub
+
+/-- Negation witness `wrong-credential-accepted`: the real decorator was observed to accept a credentials
+word `p ≠ e` for the configured token `e` (e.g. a proper prefix of it): the request `Authorization:
+"Bearer " ++ p` to a protected rule is served. -/
+theorem C15_witness_compare (c : Cfg) (i : Nat) (m : String) (p e : List Char)
+    (h : wrongAcceptAt c i m p e = true) : ¬ C15_fullC c := by
+  intro hf
+  unfold wrongAcceptAt at h
+  cases hr : c.table.routes[i]? with
+  | none => simp [hr] at h
+  | some rt =>
+    simp only [hr, Bool.and_eq_true, Bool.not_eq_true', decide_eq_false_iff_not] at h
+    obtain ⟨⟨⟨hacc, hne⟩, hsp⟩, ⟨⟨⟨⟨hp, hs⟩, hpr⟩, hm⟩, hao⟩⟩ := h
+    have hsp' : ' ' ∉ p := by simpa using hsp
+    have h2 : word2 ('B' :: 'e' :: 'a' :: 'r' :: 'e' :: 'r' :: ' ' :: p) = some p :=
+      (word2_spec _ _).mpr ⟨['B', 'e', 'a', 'r', 'e', 'r'], [], by decide, hsp', Or.inl rfl⟩
+    have := (hf Unit Unit (fun _ _ s => (s, 200)) e ()
+      { route := i, method := m, auth := some ('B' :: 'e' :: 'a' :: 'r' :: 'e' :: 'r' :: ' ' :: p), file := "", payload := () }
+      (by rintro ⟨h, hh, hw⟩
+          simp only [Option.some.injEq] at hh
+          subst hh
+          rw [h2] at hw
+          exact hne (Option.some.inj hw))
+      (by intro rt' hrt'; simp only [hr] at hrt'; cases hrt'; exact hp)).1
+    have hm' : m ∈ rt.methods := by simpa using hm
+    simp [handleW, serveRouteW, guardedW, authOKW, hr, hm', hao, hs, hpr, h2, hacc] at this
+
+/-- the seeded comparison accepts every prefix and every extension of the token -/
+theorem zipCmp_prefix (p τ : List Char) (h : p <+: τ) : zipCmp p τ = true := by
+  induction p generalizing τ with
+  | nil => cases τ <;> rfl
+  | cons a as ih =>
+    cases τ with
+    | nil => rfl
+    | cons b bs =>
+      rw [List.cons_prefix_cons] at h
+      simp [zipCmp, h.1, ih bs h.2]
+
+theorem zipCmp_extension (p τ : List Char) (h : τ <+: p) : zipCmp p τ = true := by
+  induction τ generalizing p with
+  | nil => cases p <;> rfl
+  | cons b bs ih =>
+    cases p with
+    | nil => rfl
+    | cons a as =>
+      rw [List.cons_prefix_cons] at h
+      simp [zipCmp, h.1, ih as h.2]
+
+/-- hence it does not satisfy `auth_exact`: the empty credentials word is accepted for every token -/
+theorem zipCmp_not_exact : ¬ (∀ h τ, authOKW zipCmp (some h) τ = .accept ↔ word2 h = some τ) := by
+  intro hex
+  have := auth_exactW_requires zipCmp hex [] ['a'] (by simp)
+  simp [zipCmp] at this
+
+/-! ### raw header lines -/
+
+theorem headerValue_none_iff (tr : Transport) (raw : List (List Char × List Char)) :
+    headerValue tr raw = none ↔ ∀ nv ∈ raw, isAuthName nv.1 = false := by
+  unfold headerValue authValues
+  cases hf : raw.filter (fun nv => isAuthName nv.1) with
+  | nil =>
+    simp only [List.map_nil, true_iff]
+    intro nv hnv
+    have := List.filter_eq_nil_iff.mp hf nv hnv
+    simpa using this
+  | cons x xs =>
+    simp only [List.map_cons, reduceCtorEq, false_iff]
+    intro hall
+    have hx : x ∈ raw.filter (fun nv => isAuthName nv.1) := by rw [hf]; simp
+    have := (List.mem_filter.mp hx)
+    rw [hall x this.1] at this
+    exact absurd this.2 (by simp)
+
+/-- the field name is matched without regard to ASCII case -/
+example : isAuthName "Authorization".toList = true ∧ isAuthName "authorization".toList = true ∧
+    isAuthName "AUTHORIZATION".toList = true ∧ isAuthName "aUtHoRiZaTiOn".toList = true ∧
+    isAuthName "Authorization_".toList = false ∧ isAuthName "Authorization ".toList = false := by decide
+
+/-- The statement for requests given as header LINES through any gateway: whatever lines are sent, if the
+value the decorator sees does not present the token, the request is refused and changes nothing. -/
+theorem C15_refuse_raw (t : Table) (hok : allProtected t = true)
+    {σ π : Type} (V : View σ π) (τ : List Char) (s : σ) (tr : Transport) (raw : List (List Char × List Char))
+    (i : Nat) (m f : String) (p : π)
+    (hnp : ∀ h, headerValue tr raw = some h → word2 h ≠ some τ)
+    (hpub : ∀ rt, t.routes[i]? = some rt → isPublic rt = false)
+    (hopt : m ≠ "OPTIONS") :
+    let r : Request π := { route := i, method := m, auth := headerValue tr raw, file := f, payload := p }
+    (handle V t (some τ) s r).2 ≥ 400 ∧ (handle V t (some τ) s r).1 = s := by
+  intro r
+  exact C15_refuse t hok V τ s r (by rintro ⟨h, hh, hw⟩; exact hnp h hh hw) hpub hopt
+
+/-- second word of `a ++ " " ++ w ++ "," ++ r` (`w` space-free) contains the comma -/
+theorem word2_comma (a w r x : List Char) (ha : ' ' ∉ a) (hw : ' ' ∉ w)
+    (hx : word2 (a ++ ' ' :: (w ++ ',' :: r)) = some x) : ',' ∈ x := by
+  rcases first_space r with hn | ⟨b, r', hb, rfl⟩
+  · have hs : ' ' ∉ w ++ ',' :: r := by simp [hw, hn]
+    have : word2 (a ++ ' ' :: (w ++ ',' :: r)) = some (w ++ ',' :: r) :=
+      (word2_spec _ _).mpr ⟨a, [], ha, hs, Or.inl rfl⟩
+    rw [this] at hx; cases hx; simp
+  · have hs : ' ' ∉ w ++ ',' :: b := by simp [hw, hb]
+    have : word2 (a ++ ' ' :: (w ++ ',' :: (b ++ ' ' :: r'))) = some (w ++ ',' :: b) :=
+      (word2_spec _ _).mpr ⟨a, r', ha, hs, Or.inr (by simp)⟩
+    rw [this] at hx; cases hx; simp
+
+/-- Duplicate Authorization lines: when the first line has the two-word form `scheme SP word` and the
+gateway joins repeated lines with a separator starting with a comma (both werkzeug gateways), a
+comma-free token is never presented — sending the right token twice, or a wrong one followed by the right
+one, is refused. -/
+theorem auth_duplicate_refused (sep' a w τ v2 : List Char) (vs : List (List Char))
+    (ha : ' ' ∉ a) (hw : ' ' ∉ w) (hτ : ',' ∉ τ) :
+    authOK (some (joinVals (',' :: sep') ((a ++ ' ' :: w) :: v2 :: vs))) τ ≠ .accept := by
+  intro hacc
+  have h2 := (auth_exact _ τ).mp hacc
+  have hj : joinVals (',' :: sep') ((a ++ ' ' :: w) :: v2 :: vs)
+      = a ++ ' ' :: (w ++ ',' :: (sep' ++ joinVals (',' :: sep') (v2 :: vs))) := by
+    simp [joinVals]
+  rw [hj] at h2
+  exact hτ (word2_comma a w _ τ ha hw h2)
+
+example : headerValue testClient [("Authorization".toList, "Bearer tok".toList), ("authorization".toList, "Bearer tok".toList)]
+    = some "Bearer tok, Bearer tok".toList := by decide
+example : headerValue wsgiServer [("X".toList, "y".toList), ("AUTHORIZATION".toList, "  \tBearer tok ".toList)]
+    = some "Bearer tok ".toList := by decide
+example : headerValue wsgiServer [("Authorization_".toList, "Bearer tok".toList)] = none := by decide
+
+#print axioms auth_exactW
+#print axioms auth_exactW_requires
+#print axioms auth_exact_iff_equality
+#print axioms auth_exact_obs
+#print axioms cmpOf_good
+#print axioms C15_fullC_iff
+#print axioms C15_fullC_of_good
+#print axioms C15_partialC
+#print axioms C15_witness_compare
+#print axioms zipCmp_prefix
+#print axioms zipCmp_extension
+#print axioms zipCmp_not_exact
+#print axioms C15_refuse_raw
+#print axioms auth_duplicate_refused
+#print axioms headerValue_none_iff
+
 end Bptk.C15
